@@ -68,6 +68,12 @@ func (w *world) fork() {
 		run.Count("info/fork-suffix-not-compared-after-unfaithful-import")
 	}
 	w.importQueries()
+	if os.Getenv("VERIF_C19_DEBUG") != "" { // investigation aid
+		ca, cd := w.A.QueryCtx(), w.D.PendingCtx()
+		fmt.Fprintf(os.Stderr, "fork h=%d: incentives gauges upcoming/active: A %d/%d, D %d/%d\n", w.h,
+			len(w.A.App.IncentivesKeeper.GetUpcomingGauges(ca)), len(w.A.App.IncentivesKeeper.GetActiveGauges(ca)),
+			len(w.D.App.IncentivesKeeper.GetUpcomingGauges(cd)), len(w.D.App.IncentivesKeeper.GetActiveGauges(cd)))
+	}
 	w.kvDiffPending = w.dLive
 	run.Event("fork", "ok")
 }
@@ -185,10 +191,13 @@ func (w *world) diffExports(oracle, phase string, a, d map[string]string) (diffe
 			continue
 		}
 		na, nd := normalise(m, phase, ja), normalise(m, phase, jd)
-		if m == "epochs" && superfluidInUse(a["superfluid"]) && os.Getenv("VERIF_C19_EXPERIMENT_IGNORE_EPOCH_HEIGHT") == "" {
-			// with superfluid staking in use the reset start height is not harmless: the
-			// superfluid begin-blocker runs its epoch-start routine whenever
-			// height - current_epoch_start_height == 0, i.e. in the first block after the import
+		if m == "epochs" && phase == "import" && superfluidInUse(a["superfluid"]) && os.Getenv("VERIF_C19_EXPERIMENT_IGNORE_EPOCH_HEIGHT") == "" {
+			// with superfluid assets or delegations the reset start height is not harmless:
+			// the superfluid begin-blocker runs its epoch-start routine (move staking rewards
+			// to gauges, distribute, recompute the asset multipliers, refresh delegations)
+			// whenever height - current_epoch_start_height == 0, i.e. in the first block after
+			// the import (at the end of a run the field is a leftover of a fork that was
+			// judged harmless)
 			na, nd = ja, jd
 		}
 		if m == "protorev" {
@@ -323,7 +332,8 @@ func superfluidInUse(sfExport string) bool {
 		return false
 	}
 	accs, _ := v["intermediary_accounts"].([]interface{})
-	return len(accs) > 0
+	assets, _ := v["superfluid_assets"].([]interface{})
+	return len(accs) > 0 || len(assets) > 0
 }
 
 // normaliseProtorev: x/protorev InitGenesis stores ctx.BlockHeight() as the
